@@ -123,6 +123,22 @@ def check_case(case):
     if d:
         v("analysis-differs:" + d[0], "SequenceParameters(%s).%s = %s but the normalised word %s gives %s" % (sh(s), d[0], sh(d[1]), sh(n), sh(d[2])),
           normalised=n)
+    # the validator used as a plain query on the live object's backend (another string checked, accepted or rejected): the object
+    # still describes its own sequence (for a deterministic eighth of the accepted strings)
+    import zlib as _z
+    if _z.crc32(s.encode("utf-8", "surrogatepass")) % 8 == 0:
+        lt_ = "tiny" if len(n) > 400 else True
+        for other in ("KKKKKKKKKKKKKKKKKKKKKKKKK", "  ", "KXK", "e"):
+            try:
+                o.SeqObj.validateSequence(other)
+            except Exception:  # noqa
+                pass
+        calls += 4
+        a3 = api_vector(o, light=lt_)
+        d3 = diff(a3, api_vector(SP(n), light=lt_))
+        if d3:
+            v("analysis-differs(after validating other strings):" + d3[0], "SequenceParameters(%s): after its backend validator was asked about other "
+              "strings, %s = %s but the normalised word gives %s" % (sh(s), d3[0], sh(d3[1]), sh(d3[2])), normalised=n[:200])
     # the string together with a (never opened) sequenceFile argument: the string still decides
     try:
         o3 = SP(s, sequenceFile="/nonexistent/vmc_c13.fasta")
